@@ -333,7 +333,7 @@ fn observe_pair(ret: i64, a: &VecType, b: &VecType) -> VecObs {
         is_empty: a.is_empty(),
         capacity: a.capacity(),
         is_normalized: a.is_normalized(),
-        hi64: a.hi64(),
+        hi64: if a.is_normalized() { a.hi64() } else { (0, false) },
         eq_ab: a == b,
         cmp_ab: a.cmp(b),
         partial_cmp_ab: a.partial_cmp(b),
@@ -415,6 +415,174 @@ fn slow_parse_mantissa(int: &[u8], frac: &[u8], max_digits: usize) -> (Vec<u64>,
     (b.data.to_vec(), n)
 }
 
+
+// ---------------------------------------------------------------------------
+// iterator shapes yielding the same byte sequence (C16)
+
+#[derive(Clone)]
+struct ChunkIter<'a> {
+    chunks: &'a [Vec<u8>],
+    ci: usize,
+    bi: usize,
+}
+
+impl<'a> Iterator for ChunkIter<'a> {
+    type Item = &'a u8;
+    fn next(&mut self) -> Option<&'a u8> {
+        while self.ci < self.chunks.len() {
+            let c = &self.chunks[self.ci];
+            if self.bi < c.len() {
+                self.bi += 1;
+                return Some(&c[self.bi - 1]);
+            }
+            self.ci += 1;
+            self.bi = 0;
+        }
+        None
+    }
+}
+
+fn chunks_of(b: &[u8], salt: u64) -> Vec<Vec<u8>> {
+    let mut out = Vec::new();
+    let mut s = salt | 1;
+    let mut i = 0;
+    while i < b.len() {
+        s = s.wrapping_mul(6364136223846793005).wrapping_add(1442695040888963407);
+        let n = (1 + (s >> 33) % 23) as usize;
+        let n = n.min(b.len() - i);
+        out.push(b[i..i + n].to_vec());
+        if (s >> 20) % 5 == 0 {
+            out.push(Vec::new()); // empty chunk in the middle
+        }
+        i += n;
+    }
+    out
+}
+
+pub const SHAPE_NAMES: [&str; 10] =
+    ["slice", "chain-2", "chain-4", "filter-separators", "vecdeque-wrapped", "rev-of-reversed", "skip-take-padded", "step_by-2", "custom-chunk-list", "flat_map-chunks+single-byte-arrays"];
+
+fn shapes_g<F: Float>(int: &[u8], frac: &[u8], exp: i32, shape: u32, salt: u64) -> u64 {
+    use std::collections::VecDeque;
+    match shape {
+        0 => ml::parse_float::<F, _, _>(int.iter(), frac.iter(), exp).to_bits(),
+        1 => {
+            let (a, b) = int.split_at((salt as usize) % (int.len() + 1));
+            let (c, d) = frac.split_at((salt as usize >> 8) % (frac.len() + 1));
+            ml::parse_float::<F, _, _>(a.iter().chain(b.iter()), c.iter().chain(d.iter()), exp).to_bits()
+        }
+        2 => {
+            let cut = |s: &[u8], k: u64| -> [usize; 3] {
+                let n = s.len() + 1;
+                let mut c = [(k as usize) % n, (k as usize >> 7) % n, (k as usize >> 14) % n];
+                c.sort_unstable();
+                c
+            };
+            let ci = cut(int, salt);
+            let cf = cut(frac, salt >> 21);
+            let i = int[..ci[0]].iter().chain(int[ci[0]..ci[1]].iter()).chain(int[ci[1]..ci[2]].iter()).chain(int[ci[2]..].iter());
+            let f = frac[..cf[0]].iter().chain(frac[cf[0]..cf[1]].iter()).chain(frac[cf[1]..cf[2]].iter()).chain(frac[cf[2]..].iter());
+            ml::parse_float::<F, _, _>(i, f, exp).to_bits()
+        }
+        3 => {
+            let sep = |s: &[u8], k: u64| -> Vec<u8> {
+                let mut out = Vec::with_capacity(s.len() * 2 + 2);
+                let mut x = k | 1;
+                out.push(b'_');
+                for &c in s {
+                    out.push(c);
+                    x = x.wrapping_mul(6364136223846793005).wrapping_add(1);
+                    for _ in 0..((x >> 40) % 3) {
+                        out.push(b'_');
+                    }
+                }
+                out
+            };
+            let (bi, bf) = (sep(int, salt), sep(frac, salt >> 13));
+            ml::parse_float::<F, _, _>(bi.iter().filter(|&&c| c != b'_'), bf.iter().filter(|&&c| c != b'_'), exp).to_bits()
+        }
+        4 => {
+            let dq = |s: &[u8], k: u64| -> VecDeque<u8> {
+                // force a wrapped (two-slice) layout
+                let mut d: VecDeque<u8> = VecDeque::with_capacity(s.len() + 8);
+                let pre = 1 + (k as usize) % 7;
+                for _ in 0..pre {
+                    d.push_back(b'#');
+                }
+                let half = s.len() / 2;
+                for &c in &s[half..] {
+                    d.push_back(c);
+                }
+                for _ in 0..pre {
+                    d.pop_front();
+                }
+                for &c in s[..half].iter().rev() {
+                    d.push_front(c);
+                }
+                d
+            };
+            let (di, df) = (dq(int, salt), dq(frac, salt >> 9));
+            ml::parse_float::<F, _, _>(di.iter(), df.iter(), exp).to_bits()
+        }
+        5 => {
+            let ri: Vec<u8> = int.iter().rev().copied().collect();
+            let rf: Vec<u8> = frac.iter().rev().copied().collect();
+            ml::parse_float::<F, _, _>(ri.iter().rev(), rf.iter().rev(), exp).to_bits()
+        }
+        6 => {
+            let pad = |s: &[u8], k: u64| -> (Vec<u8>, usize) {
+                let p = (k % 17) as usize;
+                let mut v = vec![b'9'; p];
+                v.extend_from_slice(s);
+                v.extend_from_slice(b"12345");
+                (v, p)
+            };
+            let ((vi, pi), (vf, pf)) = (pad(int, salt), pad(frac, salt >> 11));
+            ml::parse_float::<F, _, _>(vi.iter().skip(pi).take(int.len()), vf.iter().skip(pf).take(frac.len()), exp).to_bits()
+        }
+        7 => {
+            let inter = |s: &[u8]| -> Vec<u8> {
+                let mut v = Vec::with_capacity(s.len() * 2);
+                for &c in s {
+                    v.push(c);
+                    v.push(b'7');
+                }
+                v
+            };
+            let (vi, vf) = (inter(int), inter(frac));
+            // step_by(2) keeps indices 0, 2, 4, ...: exactly the original bytes
+            ml::parse_float::<F, _, _>(vi.iter().step_by(2).take(int.len()), vf.iter().step_by(2).take(frac.len()), exp).to_bits()
+        }
+        8 => {
+            let (ci, cf) = (chunks_of(int, salt), chunks_of(frac, salt >> 17));
+            let i = ChunkIter {
+                chunks: &ci,
+                ci: 0,
+                bi: 0,
+            };
+            let f = ChunkIter {
+                chunks: &cf,
+                ci: 0,
+                bi: 0,
+            };
+            ml::parse_float::<F, _, _>(i, f, exp).to_bits()
+        }
+        _ => {
+            let ci = chunks_of(int, salt);
+            let singles: Vec<[u8; 1]> = frac.iter().map(|&c| [c]).collect();
+            ml::parse_float::<F, _, _>(ci.iter().flat_map(|c| c.iter()), singles.iter().map(|a| &a[0]), exp).to_bits()
+        }
+    }
+}
+
+fn shapes32(int: &[u8], frac: &[u8], exp: i32, shape: u32, salt: u64) -> u64 {
+    shapes_g::<f32>(int, frac, exp, shape, salt)
+}
+
+fn shapes64(int: &[u8], frac: &[u8], exp: i32, shape: u32, salt: u64) -> u64 {
+    shapes_g::<f64>(int, frac, exp, shape, salt)
+}
+
 pub const CFG: Cfg = Cfg {
     name: NAME,
     std: STD,
@@ -448,6 +616,6 @@ pub const CFG: Cfg = Cfg {
     slow_parse_mantissa,
     tables,
     libm_pow,
-    shapes32: crate::cfgs::SHAPES_UNSET,
-    shapes64: crate::cfgs::SHAPES_UNSET,
+    shapes32,
+    shapes64,
 };
